@@ -1417,6 +1417,35 @@ MOTIFS = [
 CONTROL = [(op_if, 3), (op_loop, 2), (op_function_call, 2)]
 
 
+def m_dropout_mask_live(g):
+    """Dropout whose optional second output (the mask) is alive: consumed by another node and/or a graph output.  The mask has
+    the data's element type up to opset 9 and is BOOL from opset 10; ratio / training_mode are inputs only from opset 12."""
+    x = g.pick(_f32)
+    ins = [x]
+    attrs = {}
+    if g.opset >= 12:
+        if g.rng.random() < 0.6:
+            ins.append(g.const(np.array(g.rng.choice([0.0, 0.5]), dtype=F32)))
+    elif g.rng.random() < 0.5:
+        attrs["ratio"] = g.rng.choice([0.0, 0.25, 0.5])
+    out, mask = g.add("Dropout", ins, nout=2, mag=x.mag, **attrs)
+    g.hit("motif:dropout_mask_live")
+    how = g.rng.choice(["output", "consume", "both"])
+    r = out
+    if how in ("consume", "both"):
+        if mask.dtype.kind == "b":
+            r = g.add("Where", [mask, out, g.const(np.array(0.0, dtype=F32))], mag=x.mag)
+        else:
+            r = g.add("Mul", [out, mask], mag=x.mag)
+    if how in ("output", "both"):
+        g.force_out.append(mask)
+    return r
+
+
+# table of the legacy-opset stratum (default-domain opset 7..12): everything above plus the live-mask Dropout
+LEGACY_EXTRA = [(m_dropout_mask_live, 6)]
+
+
 def grow(g, n_nodes, allow_inputs=True, table=None):
     table = table or (BASIC_OPS + MOTIFS + (CONTROL if g.depth < 2 else []))
     fns, ws = zip(*table)
